@@ -21,7 +21,7 @@ REPO = os.environ.get("VERIF_REPO", "/repo")
 
 
 class Harness:
-    def __init__(self, name, fn, quick=None, thorough=None, requires=(), max_paths=(20000, 400000), timeout_ms=(10000, 60000),
+    def __init__(self, name, fn, quick=None, thorough=None, requires=(), max_paths=(20000, 400000), timeout_ms=(20000, 60000),
                  wall_s=(150, 1500), clock_modules=(), pattern="", doc="", outside=(), assumptions=(), selfcheck=True,
                  merge_minmax=True, allow_unconfirmed=False, tiers=("quick", "thorough")):
         self.name = name
